@@ -85,6 +85,9 @@ def worker(prop, props, widx, n_examples, max_edges, max_ops, features, nontrivi
             res.case(dict(g=g, ops=ops), nt, classes,
                      sample=dict(manifest=graphs.manifest(g), ops=ops[:6]) if nt else None)
             res.extra['invocations'] += sim.stats['invocations']
+            for sk in ('schedules', 'distinct_orders', 'graphs_exhausted'):
+                if sim.stats.get(sk):
+                    res.extra[sk] += sim.stats[sk]
             for f in findings:
                 if f['known'] and all(known.listed(f['prop'], s_) for s_ in f['known'].split('+')):
                     for s_ in f['known'].split('+'):
@@ -202,5 +205,6 @@ def replay_file(path, prop, props):
     return 0
 
 
-RUNNERS = {'metamorphic': lambda sim, ops: simrun.run_metamorphic(sim, ops),
+RUNNERS = {'all_schedules': lambda sim, ops: simrun.run_all_schedules(sim, ops),
+           'metamorphic': lambda sim, ops: simrun.run_metamorphic(sim, ops),
            'dyndep_inline': lambda sim, ops: simrun.run_metamorphic(sim, ops, simrun.to_inlined, 'C11', 'inlined-manifest')}
